@@ -77,12 +77,17 @@ def end() -> None:
         shutil.rmtree(_P['dir'], ignore_errors=True)
 
 
-def flags_for(insecure: bool) -> Any:
+class Bystander(HttpProxyBasePlugin):
+    """A plugin that has no opinion on interception (keeps the default): loaded before or after the opting-out one."""
+
+
+def flags_for(insecure: bool, plug: str = 'optout') -> Any:
     args = ['--ca-key-file', _P['ica'][0], '--ca-cert-file', _P['ica'][1], '--ca-signing-key-file', _P['sign_key'],
             '--ca-cert-dir', _P['certs'], '--ca-file', _P['oca'][1]]
     if insecure:
         args.append('--insecure-tls-interception')
-    return make_flags(args, plugins=[OptOut], cache_key='c11:%s:%s' % (insecure, _P['dir']), threaded=True)
+    plugins = {'optout': [OptOut], 'optout+bystander': [OptOut, Bystander], 'bystander+optout': [Bystander, OptOut]}[plug]
+    return make_flags(args, plugins=plugins, cache_key='c11:%s:%s:%s' % (insecure, _P['dir'], plug), threaded=True)
 
 
 def origin_leaf(situation: str, host: str, also: Tuple[str, ...] = ()) -> Tuple[str, str]:
@@ -479,7 +484,7 @@ def run_case(case: Dict[str, Any]) -> Dict[str, Any]:
                 return {'viol': [], 'inconclusive': 'v6-lock-timeout', 'obs': {}, 'sig': feat, 'nontrivial': False}
             origin = TlsOrigin(ip, origin_leaf(situation, host, (alt,) if alt else ()), responses)
             origin.start()
-            flags = flags_for(insecure)
+            flags = flags_for(insecure, case.get('plugins', 'optout'))
             first_host = host
             for conn_no in range(case['connections'] + (1 if alt else 0)):
                 host = alt if (alt and conn_no == case['connections']) else first_host
@@ -664,7 +669,7 @@ def run_case(case: Dict[str, Any]) -> Dict[str, Any]:
         for th in threads:
             th.join(10)
         shim.S.all_threads_active = False
-    obs.update({'situation:' + situation: 1, 'host:' + hostkind: 1, 'insecure:%s' % insecure: 1, 'optout:%s' % optout: 1})
+    obs.update({'plugins:' + case.get('plugins', 'optout'): 1, 'situation:' + situation: 1, 'host:' + hostkind: 1, 'insecure:%s' % insecure: 1, 'optout:%s' % optout: 1})
     seen = set()
     uniq = []
     for v in viol:
@@ -700,7 +705,7 @@ def cases(tier: str, seed: int):
                                'requests': rng.choice([1, 2, 3]), 'resp_size': rng.choice([0, 50, 3000, 300000]) if situation == 'good' or insecure else 50,
                                'req_body': rng.choice([0, 20, 5000]), 'cuts': rng.choice([0, 1, 5]), 'client_pace': rng.choice(['eager', 'slow']),
                                'connections': rng.choice([1, 2, 2]) if situation == 'good' else rng.choice([2, 3]),
-                               'record_split': rng.random() < 0.4, 'warm_name': hostkind == 'name' and situation == 'good' and rng.random() < 0.3,
+                               'record_split': rng.random() < 0.4, 'plugins': ['optout', 'optout+bystander', 'bystander+optout'][i % 3], 'warm_name': hostkind == 'name' and situation == 'good' and rng.random() < 0.3,
                                'shared_cert': hostkind == 'name' and situation == 'good'}
 
 
@@ -710,7 +715,7 @@ def floors(tier: str) -> Dict[str, int]:
     return {'live_batches': 3, 'live_verified_handshakes': 30, 'verified_handshakes': 60, 'refusals_checked': 45, 'optout_tunnels_checked': 30, 'responses_checked': 120,
             'origin_requests_checked': 40, 'warm_cache_connections': 10, 'verified:name': 3, 'verified:punycode': 3,
             'shared_certificate_second_host_checked': 2, 'situation:self-signed': 5, 'situation:wrong-name': 5, 'situation:expired': 5, 'situation:untrusted-ca': 5,
-            'repeat_refusals_checked': 20, 'split_tls_records_sent': 20}
+            'repeat_refusals_checked': 20, 'split_tls_records_sent': 20, 'plugins:optout+bystander': 30, 'plugins:bystander+optout': 30}
 
 
 if __name__ == '__main__':
